@@ -103,6 +103,10 @@ class World:
         return np.array(order, dtype=int)
 
 
+DTYPES = [True]
+MUTATED = []     # backward() calls that changed the caller's list of accepted predictors
+
+
 def run_impl(kind, ncand, nz, prefix, rng=None, nan_mode=False, weak=True, pool=None, S_init=None):
     import causationentropy.core.discovery as D
 
@@ -113,6 +117,12 @@ def run_impl(kind, ncand, nz, prefix, rng=None, nan_mode=False, weak=True, pool=
     X = np.column_stack([w.col(c, N) for c in range(ncand)]) if ncand else np.zeros((N, 0))
     Y = np.arange(N, dtype=float).reshape(-1, 1)
     Zi = np.column_stack([w.col(c, N) for c in zinit_ids]) if nz else None
+    # the data are 0/1 indicator columns: the same numbers as float64, int64 or int32 arrays (the information landscape is real-valued
+    # whatever the dtype of the data)
+    dt = [np.float64, np.int64, np.int32][(len(prefix) + sum(int(p_) for p_ in prefix) + ncand + nz) % 3] if DTYPES[0] else np.float64
+    X, Y = X.astype(dt), Y.astype(dt)
+    Zi = None if Zi is None else Zi.astype(dt)
+    s_arg = None if S_init is None else list(S_init)
     saved = (D.conditional_mutual_information, D.shuffle_test)
     D.conditional_mutual_information, D.shuffle_test = w.cmi, w.shuffle_test
     try:
@@ -126,9 +136,11 @@ def run_impl(kind, ncand, nz, prefix, rng=None, nan_mode=False, weak=True, pool=
             elif kind == "alternative_forward":
                 S = D.alternative_forward(X, Y, w, AF, 7, "knn", "euclidean", 3, "silverman")
             else:
-                S = D.backward(X, Y, list(S_init), w, AB, 7, "knn", "euclidean", 3, "silverman")
+                S = D.backward(X, Y, s_arg, w, AB, 7, "knn", "euclidean", 3, "silverman")
     finally:
         D.conditional_mutual_information, D.shuffle_test = saved
+    if s_arg is not None and s_arg != list(S_init):
+        MUTATED.append({"S_init": list(S_init), "after_the_call": list(s_arg), "returned": [int(s_) for s_ in S]})
     return w, [int(s) for s in S], ch.trace
 
 
@@ -354,6 +366,9 @@ def check(run, driver):
             run.corr_fail("discover-level", case, r, None, "driver error"); continue
         DC.compare_with_model(run, "discover-level", case, o, r["ok"], names)
         run.traces += 1
+    for m_ in MUTATED[:3]:
+        run.prop_fail("backward() prunes the caller's list of accepted predictors in place (a forward result re-used for another backward order is then no longer the forward result)",
+                      m_, {"clause": "purity", "function": "backward"})
     run.assumptions += [
         "oracles are observed at the module-attribute seams discovery.conditional_mutual_information / discovery.shuffle_test and through the generator object handed in",
         "per-call evaluation order of the landscape and the number of estimator evaluations are deliberately NOT observables (caching or re-ordering rewrites do not break the tie)",
